@@ -945,10 +945,19 @@ fn glyph_program(rng: &mut Rng, n_points: usize, n_cvt: usize, feats: &mut BTree
     }
     let mut note = |k: &str| *feats.entry(format!("ins:{k}")).or_default() += 1;
     let with_phantom = n_points + 4;
-    let n_ops = rng.range(2, 14);
+    let n_ops = rng.range(2, 16);
     let mut iup = [false, false];
+    // Most movement is done along y: under the v40 interpreter's backward
+    // compatibility mode (every target but mono) x movement is ignored.
+    let mut block_left = 0;
     // reference points default to 0, which is always a valid point here
     for _ in 0..n_ops {
+        if block_left == 0 {
+            v.push(if rng.chance(7, 10) { op::SVTCA_Y } else { op::SVTCA_X });
+            note("SVTCA");
+            block_left = rng.range(1, 6);
+        }
+        block_left -= 1;
         let p = if rng.chance(1, 10) { rng.usize(with_phantom) } else { rng.usize(n_points) } as i32;
         let c = rng.usize(n_cvt.max(1)) as i32;
         match rng.usize(22) {
@@ -1420,6 +1429,181 @@ fn build_font(
         b.add_raw(Tag::new(b"prep"), prep.to_vec());
     }
     b.build()
+}
+
+// ---------------------------------------------------------------- probe font
+//
+// A fixed (seed-independent) font holding the shapes on which skrifa is KNOWN
+// to differ from the linked FreeType 2.12.1. The random generator keeps away
+// from these shapes (`avoid_known`), so that every remaining mismatch on a
+// random font is new; the probe keeps the known ones visible under stable
+// signatures (open entries in /verif/known_findings.jsonl).
+
+pub const PROBE_NAME: &str = "synth-probe-v1";
+pub const PROBE_PPEMS: [u32; 12] = [0, 8, 9, 11, 12, 13, 16, 21, 24, 32, 48, 100];
+
+fn hand_simple(contours: Vec<Vec<(i16, i16)>>, kind: &str, bbox: Option<[i16; 4]>, advance: u16, lsb: i16) -> GlyphInfo {
+    let contours: Vec<Vec<Pt>> = contours.into_iter().map(|c| c.into_iter().map(|(x, y)| Pt { x, y, on: true }).collect()).collect();
+    let pts: Vec<(f64, f64)> = contours.iter().flatten().map(|p| (p.x as f64, p.y as f64)).collect();
+    GlyphInfo {
+        bbox: bbox.unwrap_or_else(|| bbox_of(&pts)),
+        advance,
+        lsb,
+        n_points: pts.len(),
+        n_contours: contours.len(),
+        depth: 0,
+        has_point_anchor_deep: false,
+        pts,
+        recipe: Recipe::Simple { contours, kind: kind.into(), encoding: "compact", overlap_simple: false, ins: vec![] },
+    }
+}
+
+fn hand_composite(glyphs: &[GlyphInfo], comps: Vec<Comp>, bbox: [i16; 4], advance: u16, lsb: i16) -> GlyphInfo {
+    let n_points = comps.iter().map(|c| glyphs[c.gid as usize].n_points).sum();
+    let n_contours = comps.iter().map(|c| glyphs[c.gid as usize].n_contours).sum();
+    let depth = 1 + comps.iter().map(|c| glyphs[c.gid as usize].depth).max().unwrap_or(0);
+    GlyphInfo {
+        recipe: Recipe::Composite { comps, ins: vec![] },
+        bbox,
+        advance,
+        lsb,
+        n_points,
+        n_contours,
+        depth,
+        has_point_anchor_deep: false,
+        pts: vec![],
+    }
+}
+
+pub fn probe_font() -> SynthFont {
+    let upem = 2048u16;
+    let mut g = Gen {
+        rng: Rng::new(0),
+        upem,
+        ext: upem as i32,
+        allow_extreme: true,
+        glyphs: vec![],
+        features: BTreeMap::new(),
+        half_pixel: None,
+        programs: false,
+        cvt: vec![],
+        avoid_known: false,
+    };
+    const ID: [i16; 4] = [0x4000, 0, 0, 0x4000];
+    let l_shape = vec![vec![(100i16, 0i16), (100, 1400), (300, 1400), (300, 200), (1000, 200), (1000, 0)]];
+    // 0: .notdef
+    g.glyphs.push(hand_simple(vec![vec![(100, 0), (100, 1400), (800, 1400), (800, 0)]], "notdef_rect", None, 900, 100));
+    // 1: an L
+    g.glyphs.push(hand_simple(l_shape.clone(), "L", None, 1200, 100));
+    // 2: SCALED_COMPONENT_OFFSET with a rotated 2x2 transform (30 degrees)
+    let c2 = vec![
+        Comp { gid: 1, flags: ARGS_ARE_XY_VALUES | ROUND_XY_TO_GRID, arg1: 0, arg2: 0, xform: ID },
+        Comp {
+            gid: 1,
+            flags: ARGS_ARE_XY_VALUES | ARG_1_AND_2_ARE_WORDS | WE_HAVE_A_TWO_BY_TWO | SCALED_COMPONENT_OFFSET,
+            arg1: 600,
+            arg2: 400,
+            xform: [14189, 8192, -8192, 14189],
+        },
+    ];
+    let gl = hand_composite(&g.glyphs, c2, [-300, 0, 1800, 2100], 1500, -300);
+    g.glyphs.push(gl);
+    // 3: numberOfContours == 0 with a glyph header, lsb != 0
+    g.glyphs.push(hand_simple(vec![], "zero_contours_with_header", Some([0; 4]), 1000, 61));
+    // 4: numberOfContours == 0 with a header whose xMin is not 0
+    g.glyphs.push(hand_simple(vec![], "zero_contours_with_header_nonzero_xmin", Some([80, 0, 80, 0]), 1000, 0));
+    // 5: ... used with USE_MY_METRICS
+    let c5 = vec![
+        Comp { gid: 1, flags: ARGS_ARE_XY_VALUES, arg1: 0, arg2: 0, xform: ID },
+        Comp { gid: 4, flags: ARGS_ARE_XY_VALUES | USE_MY_METRICS, arg1: 0, arg2: 0, xform: ID },
+    ];
+    let gl = hand_composite(&g.glyphs, c5, [100, 0, 1000, 1400], 1200, 100);
+    g.glyphs.push(gl);
+    // 6: unscaled x coordinates that leave the int16 range once shifted by -pp1.x
+    g.glyphs.push(hand_simple(
+        vec![vec![(100, 0), (100, 1400), (300, 1400), (300, 0)], vec![(32000, 0), (32000, 1400), (32700, 1400), (32700, 0)]],
+        "shift_past_int16",
+        None,
+        33000,
+        700, // pp1.x = xMin - lsb = -600: the outline is shifted right by 600 units
+    ));
+    // 7: SCALED_ and UNSCALED_COMPONENT_OFFSET both set (invalid per the spec; both engines load it)
+    let c7 = vec![Comp {
+        gid: 1,
+        flags: ARGS_ARE_XY_VALUES | ARG_1_AND_2_ARE_WORDS | WE_HAVE_A_SCALE | SCALED_COMPONENT_OFFSET | UNSCALED_COMPONENT_OFFSET,
+        arg1: 600,
+        arg2: 400,
+        xform: [0x2000, 0, 0, 0x2000],
+    }];
+    let gl = hand_composite(&g.glyphs, c7, [650, 400, 1100, 1100], 1200, 650);
+    g.glyphs.push(gl);
+    if std::env::var("C03_PROBE_EXPERIMENT").is_ok() {
+        g.glyphs.push(hand_simple(
+            vec![vec![(0, -32768), (0, -30000), (2000, -30000), (2000, -32768)], vec![(0, 30000), (0, 32766), (2000, 32766), (2000, 30000)], vec![(3000, -100), (3000, 100), (5000, 100), (5000, -100)]],
+            "exp_span_65534",
+            None,
+            6000,
+            0,
+        ));
+        g.glyphs.push(hand_simple(
+            vec![vec![(0, 0), (0, 2768), (2000, 2768), (2000, 0)], vec![(0, 30000), (0, 32766), (2000, 32766), (2000, 30000)], vec![(3000, 16000), (3000, 16200), (5000, 16200), (5000, 16000)]],
+            "exp_span_32766",
+            None,
+            6000,
+            0,
+        ));
+        g.glyphs.push(hand_simple(
+            vec![vec![(0, -2768), (0, 0), (2000, 0), (2000, -2768)], vec![(0, 30000), (0, 32766), (2000, 32766), (2000, 30000)], vec![(3000, 16000), (3000, 16200), (5000, 16200), (5000, 16000)]],
+            "exp_span_35534",
+            None,
+            6000,
+            0,
+        ));
+    }
+    let mut enc_rng = Rng::new(0);
+    let (glyf, loca) = glyf_loca(&g.glyphs, &mut enc_rng, false);
+    let n = g.glyphs.len();
+    let bytes = build_font(&g, &glyf, &loca, false, 0x000B, n, &[(' ', 3), ('L', 1)], &[], &[]);
+    SynthFont {
+        name: PROBE_NAME.into(),
+        seed: 0,
+        index: 0,
+        upem,
+        bytes,
+        ppems_quick: PROBE_PPEMS.to_vec(),
+        ppems_thorough: PROBE_PPEMS.to_vec(),
+        has_programs: false,
+        params: json!({"probe": true, "generator_version": GEN_VERSION, "units_per_em": upem, "note": "fixed font with the known skrifa-vs-FreeType divergences"}),
+        features: BTreeMap::new(),
+        glyphs: g.glyphs,
+    }
+}
+
+fn glyf_loca(glyphs: &[GlyphInfo], enc_rng: &mut Rng, short_loca: bool) -> (Vec<u8>, Vec<u8>) {
+    let mut glyf: Vec<u8> = vec![];
+    let mut offsets: Vec<u32> = vec![];
+    for gl in glyphs {
+        offsets.push(glyf.len() as u32);
+        let bytes = match gl.recipe {
+            Recipe::Empty => vec![],
+            Recipe::Simple { .. } => encode_simple(enc_rng, gl),
+            Recipe::Composite { .. } => encode_composite(gl),
+        };
+        glyf.extend_from_slice(&bytes);
+        while glyf.len() % 4 != 0 {
+            glyf.push(0);
+        }
+    }
+    offsets.push(glyf.len() as u32);
+    let mut loca: Vec<u8> = vec![];
+    for o in &offsets {
+        if short_loca {
+            be16(&mut loca, (*o / 2) as u16);
+        } else {
+            loca.extend_from_slice(&o.to_be_bytes());
+        }
+    }
+    (glyf, loca)
 }
 
 // ---------------------------------------------------------------- description
